@@ -7,6 +7,7 @@ import KrillModel.Ca.Witnesses
 import KrillModel.Ca.LemmasNoOver
 import KrillModel.Ca.LemmasKeySync
 import KrillModel.Ca.LemmasShrink
+import KrillModel.Ca.LemmasTidyReach
 namespace KM.Props.C02
 open KM KM.CaK KM.Res KM.AMap
 
@@ -153,10 +154,9 @@ example :
 (no key both issued and suspended; keys of `issued` pairwise different, as in a `HashMap`), the
 command that receives a smaller certificate leaves every issued child certificate exactly as
 the property demands: untouched if it still fits, re-issued with the intersection if the
-intersection is not empty, removed if nothing is left.  Missing for the full statement: that
-these two hypotheses are invariants of histories in which no certificate is issued for a key
-with a suspended entry is not proved here (on this tree unsuspension breaks the first, which is
-F-C02-1). -/
+intersection is not empty, removed if nothing is left.  Missing for the full statement: the
+two hypotheses; `shrink_active_child_quiet_partial` below discharges them for the histories
+without the F-C02-1 trigger (on this tree unsuspension breaks the first one). -/
 theorem shrink_active_child_partial (rc : Rc) (hnd : (keys rc.certs.issued).Nodup) (hns : rc.noStale = true)
     (cert : Cert) (na : Int) (upd : CertUpd) (hsh : rc.certs.shrinkOverclaiming cert na = .ok upd)
     (k : KeyId) (cc : ChildCert) (hk : get rc.certs.issued k = some cc) :
@@ -219,6 +219,49 @@ example :
       .ok { issued := [(6, { res := [1], na := 9 })], removed := [7] } ∧
     (rc.certs.applyUpd { issued := [(6, { res := [1], na := 9 })], removed := [7] }).issued =
       [(6, { res := [1], na := 9 }), (5, { res := [1] })] := by decide
+
+
+/-- The two hypotheses of `shrink_active_child_partial` are invariants of every history in which
+no certificate is issued for a key that has a suspended entry (`ReachableQ`: no unsuspension of
+a suspended child, no certify for a key still suspended; the one-line repair of
+`add_issued_certificate` would make the restriction unnecessary). -/
+theorem quiet_classes_tidy {s : Sys} (h : ReachableQ s) (rcn : Rcn) (rc : Rc) (hg : get s.ca.classes rcn = some rc) :
+    (keys rc.certs.issued).Nodup ∧ (keys rc.certs.suspended).Nodup ∧ rc.noStale = true := by
+  have ht : TidyC rc.certs := reachableQ_tidy h rcn rc hg
+  refine ⟨ht.ndI, ht.ndS, ?_⟩
+  simp only [Rc.noStale, List.all_eq_true]
+  intro p hp
+  have hs : (get rc.certs.issued p.1).isSome = true := get_isSome_iff_mem_keys.mpr (List.mem_map.mpr ⟨p, hp, rfl⟩)
+  simp [ht.disj p.1 hs]
+
+/-- `shrink_active_child` for the histories without the F-C02-1 trigger, unbounded: in every state
+reached by quiet commands, in every class, the command that receives a smaller certificate
+leaves each issued child certificate untouched if it still fits, re-issues it with the
+intersection if that is not empty and removes it if nothing is left.  Missing for the full
+statement: histories with an unsuspension of a suspended child (where the statement is false on
+this tree, `not_shrink_active_child`), and the link from "in use by an active child" to "issued
+in the class", which in the model also needs that no two children share a key. -/
+theorem shrink_active_child_quiet_partial {s : Sys} (h : ReachableQ s) (rcn : Rcn) (rc : Rc)
+    (hg : get s.ca.classes rcn = some rc)
+    (cert : Cert) (na : Int) (upd : CertUpd) (hsh : rc.certs.shrinkOverclaiming cert na = .ok upd)
+    (k : KeyId) (cc : ChildCert) (hk : get rc.certs.issued k = some cc) :
+    (subset cc.res cert.res = true → get (rc.certs.applyUpd upd).issued k = some cc) ∧
+    (subset cc.res cert.res = false → isEmpty (inter cert.res cc.res) = true →
+      get (rc.certs.applyUpd upd).issued k = none ∧ k ∈ upd.removed) ∧
+    (subset cc.res cert.res = false → isEmpty (inter cert.res cc.res) = false →
+      ∃ cc', get (rc.certs.applyUpd upd).issued k = some cc' ∧
+        reissue cc (some (inter cert.res cc.res)) cert na = .ok cc' ∧
+        (cc.limit = none → cc'.res = inter cert.res cc.res)) :=
+  let ⟨hnd, _, hns⟩ := quiet_classes_tidy h rcn rc hg
+  shrink_active_child_partial rc hnd hns cert na upd hsh k cc hk
+
+/-- Non-vacuity: the history up to the suspension is quiet and contains a shrink-relevant class;
+the unsuspension that follows is not. -/
+example :
+    let s := Sys.run {} (staleHistory.take 7)
+    (Cmd.childSuspend 7).quiet (Sys.run {} (staleHistory.take 6)).ca = true ∧
+    (Cmd.childUnsuspend 7 10 61).quiet s.ca = false ∧
+    (get s.ca.classes 0).map (·.certs.suspended) = some [(6, { res := [1, 2], na := 60 })] := by decide
 
 /-! ## The published level -/
 
